@@ -16,6 +16,8 @@ lazy_static! {
 // This func acquires a read lock on global `RULE_MAP`,
 // please release the lock before calling this func
 pub fn get_rules() -> Vec<Arc<Rule>> {
+    #[cfg(flea1lt_sentinel_rust_verif)]
+    crate::verif::sched::point("lk:isolation.RULE_MAP:read");
     let rule_map = RULE_MAP.read().unwrap();
     let mut rules = Vec::with_capacity(rule_map.len());
     for r in rule_map.values() {
@@ -29,6 +31,8 @@ pub fn get_rules() -> Vec<Arc<Rule>> {
 // please release the lock before calling this func
 pub fn get_rules_of_resource(res: &String) -> Vec<Arc<Rule>> {
     let placeholder = HashSet::new();
+    #[cfg(flea1lt_sentinel_rust_verif)]
+    crate::verif::sched::point("lk:isolation.RULE_MAP:read");
     let rule_map = RULE_MAP.read().unwrap();
     let res_rules = rule_map.get(res).unwrap_or(&placeholder);
 
@@ -36,6 +40,8 @@ pub fn get_rules_of_resource(res: &String) -> Vec<Arc<Rule>> {
 }
 
 pub fn append_rule(rule: Arc<Rule>) -> bool {
+    #[cfg(flea1lt_sentinel_rust_verif)]
+    crate::verif::sched::point("lk:isolation.RULE_MAP:read");
     if RULE_MAP
         .read()
         .unwrap()
@@ -48,12 +54,16 @@ pub fn append_rule(rule: Arc<Rule>) -> bool {
 
     match rule.is_valid() {
         Ok(_) => {
+            #[cfg(flea1lt_sentinel_rust_verif)]
+            crate::verif::sched::point("lk:isolation.RULE_MAP:write");
             RULE_MAP
                 .write()
                 .unwrap()
                 .entry(rule.resource.clone())
                 .or_default()
                 .insert(Arc::clone(&rule));
+            #[cfg(flea1lt_sentinel_rust_verif)]
+            crate::verif::sched::point("lk:isolation.CURRENT_RULES:lock");
             CURRENT_RULES
                 .lock()
                 .unwrap()
@@ -79,6 +89,8 @@ pub fn load_rules(rules: Vec<Arc<Rule>>) {
         let val = res_rules_map.entry(rule.resource.clone()).or_default();
         val.insert(rule);
     }
+    #[cfg(flea1lt_sentinel_rust_verif)]
+    crate::verif::sched::point("lk:isolation.CURRENT_RULES:lock");
     let mut current_rules = CURRENT_RULES.lock().unwrap();
     if *current_rules == res_rules_map {
         logging::info!(
@@ -110,6 +122,8 @@ pub fn load_rules(rules: Vec<Arc<Rule>>) {
     }
 
     let start = utils::curr_time_nanos();
+    #[cfg(flea1lt_sentinel_rust_verif)]
+    crate::verif::sched::point("lk:isolation.RULE_MAP:write");
     let mut rule_map = RULE_MAP.write().unwrap();
     *rule_map = valid_res_rule_map;
     *current_rules = res_rules_map;
@@ -139,6 +153,8 @@ pub fn load_rules_of_resource(res: &String, rules: Vec<Arc<Rule>>) -> Result<boo
         return Ok(true);
     }
 
+    #[cfg(flea1lt_sentinel_rust_verif)]
+    crate::verif::sched::point("lk:isolation.CURRENT_RULES:lock");
     if CURRENT_RULES
         .lock()
         .unwrap()
@@ -171,13 +187,19 @@ pub fn load_rules_of_resource(res: &String, rules: Vec<Arc<Rule>>) -> Result<boo
     let valid_res_rules_string = format!("{:?}", &valid_res_rules);
     let start = utils::curr_time_nanos();
     if valid_res_rules.is_empty() {
+        #[cfg(flea1lt_sentinel_rust_verif)]
+        crate::verif::sched::point("lk:isolation.RULE_MAP:write");
         RULE_MAP.write().unwrap().remove(res);
     } else {
+        #[cfg(flea1lt_sentinel_rust_verif)]
+        crate::verif::sched::point("lk:isolation.RULE_MAP:write");
         RULE_MAP
             .write()
             .unwrap()
             .insert(res.clone(), valid_res_rules);
     }
+    #[cfg(flea1lt_sentinel_rust_verif)]
+    crate::verif::sched::point("lk:isolation.CURRENT_RULES:lock");
     CURRENT_RULES.lock().unwrap().insert(res.clone(), rules);
 
     logging::debug!(
@@ -195,7 +217,11 @@ pub fn load_rules_of_resource(res: &String, rules: Vec<Arc<Rule>>) -> Result<boo
 // This func acquires the locks on global `CURRENT_RULES` and `RULE_MAP`,
 // please release the locks before calling this func
 pub fn clear_rules() {
+    #[cfg(flea1lt_sentinel_rust_verif)]
+    crate::verif::sched::point("lk:isolation.CURRENT_RULES:lock");
     CURRENT_RULES.lock().unwrap().clear();
+    #[cfg(flea1lt_sentinel_rust_verif)]
+    crate::verif::sched::point("lk:isolation.RULE_MAP:write");
     RULE_MAP.write().unwrap().clear();
 }
 
@@ -203,8 +229,21 @@ pub fn clear_rules() {
 // This func acquires the locks on global `CURRENT_RULES` and `RULE_MAP`,
 // please release the locks before calling this func
 pub fn clear_rules_of_resource(res: &String) {
+    #[cfg(flea1lt_sentinel_rust_verif)]
+    crate::verif::sched::point("lk:isolation.CURRENT_RULES:lock");
     CURRENT_RULES.lock().unwrap().remove(res);
+    #[cfg(flea1lt_sentinel_rust_verif)]
+    crate::verif::sched::point("lk:isolation.RULE_MAP:write");
     RULE_MAP.write().unwrap().remove(res);
+}
+
+/// which of this module's locks are held right now (by anybody, the caller included)
+#[cfg(flea1lt_sentinel_rust_verif)]
+pub fn verif_locks_held() -> Vec<(&'static str, bool)> {
+    vec![
+        ("isolation.RULE_MAP", RULE_MAP.try_write().is_err()),
+        ("isolation.CURRENT_RULES", CURRENT_RULES.try_lock().is_err()),
+    ]
 }
 
 #[cfg(test)]
